@@ -233,7 +233,7 @@ func (ex *Exec) paramVal(name string, t types.Type, st *State) Val {
 		}
 		return out
 	case *types.Signature:
-		panic(unsupported("function-typed parameter %s", name))
+		return ParamFuncV{Name: name, Ty: t}
 	}
 	c := ex.vc.declare("p!"+name, sortOf(t))
 	ex.typeFacts(c, t, st)
@@ -279,7 +279,15 @@ func (ex *Exec) checkAssigns(fr *Frame, entry, exit *State, reach Term, envPre *
 		if skip {
 			continue
 		}
-		goal := Forall([]Bound{{"r?", SInt}}, Implies(And(guard...), Eq(Select(cur, rv), Select(old, rv))))
+		var goal Term
+		if cur.Sort.Elem().IsArray() {
+			// element heaps: compare element by element (no reliance on array extensionality)
+			iv := Var("i?", SInt)
+			goal = ForallPat([]Bound{{"r?", SInt}, {"i?", SInt}}, Implies(And(guard...), Eq(Select(Select(cur, rv), iv), Select(Select(old, rv), iv))),
+				[][]Term{{Select(Select(cur, rv), iv)}})
+		} else {
+			goal = Forall([]Bound{{"r?", SInt}}, Implies(And(guard...), Eq(Select(cur, rv), Select(old, rv))))
+		}
 		o := ex.vc.oblige("assigns", "assigns:"+heapDisplay(n), reach, goal, c.Where)
 		o.Descr = "nothing outside the declared frame is modified"
 	}
